@@ -45,6 +45,8 @@ def run(ctx):
   rule_exhaust(ctx)
   rule_lehman(ctx)
   rule_highlow(ctx)
+  rule_listed(ctx)
+  ctx.expect("R-C04-LISTED", 3, "sibling lengths, widths, lookup")
   ctx.expect("R-C04-HIGHLOW", 2, "test order, total advance")
   ctx.expect("R-C04-LEHMAN", 3, "convergents, Fermat step, bound")
   ctx.expect("R-C04-FERMAT", 6, "six clauses")
@@ -550,3 +552,50 @@ def rule_highlow(ctx):
         ok2 = (tot - idx).is_zero()
         why = "2^m passes of 2^(i-m) advance by 2^i = the weight of the lowest differing bit" if ok2 else "passes x step = 2^(%r), expected 2^i" % (tot,)
   ctx.record(R, f.where, "passes x step = 2^i", ok2, why)
+
+
+# ------------------------------------------------------------------ LISTED (the shipped lists of unseeded outputs: one list per prime size, same generators)
+def rule_listed(ctx):
+  """The default storage hands CheckUnseededRand one list per prime size; the lists are produced by running the same unseeded generators once per size
+  (sibling tables).  They must therefore have the same number of entries, every entry of the list for size s must fit in s bits, and the map must send
+  s to the list whose widest entry has s bits.  A list that lost an entry no longer covers a documented generator."""
+  R = "R-C04-LISTED"
+  repo = ctx.repo
+  m = repo.mod("data.unseeded_rands")
+  mp = m.consts.get("size_unseeded_map")
+  if not isinstance(mp, ast.Dict):
+    raise Incomplete("size_unseeded_map is not a dict literal", m.short)
+  tabs = {}
+  for k, v in zip(mp.keys, mp.values):
+    size = fold.try_fold(k)
+    node = m.consts.get(v.id) if isinstance(v, ast.Name) else v
+    if isinstance(node, ast.Call) and node.args:          # frozenset({...})
+      node = node.args[0]
+    vals = fold.try_fold(node) if node is not None else None
+    if not isinstance(size, int) or not isinstance(vals, (set, frozenset, list, tuple)) or not all(isinstance(x, int) for x in vals):
+      raise Incomplete("size_unseeded_map entry %s does not fold to a set of integers" % ast.unparse(k), m.short)
+    tabs[size] = set(vals)
+  counts = {s: len(t) for s, t in tabs.items()}
+  mode = max(set(counts.values()), key=lambda c: (list(counts.values()).count(c), c))
+  off = {s: c for s, c in counts.items() if c != mode}
+  if off:
+    ctx.violation(R, m.short + ":size_unseeded_map", "sibling lists agree in length",
+                  "lists for prime sizes %s have %s entries where the others have %d: an output of a listed generator is missing for that size" % (sorted(off), sorted(off.values()), mode))
+  elif mode < 80 or len(tabs) < 5:
+    ctx.incomplete(R, m.short + ":size_unseeded_map", "sibling lists agree in length", "%d lists of %d entries; 5 lists of 80 were confirmed on the pinned tree" % (len(tabs), mode))
+  else:
+    ctx.ok(R, m.short + ":size_unseeded_map", "sibling lists agree in length", "%d lists of %d distinct outputs each" % (len(tabs), mode))
+  bad = [(s, max(x.bit_length() for x in t)) for s, t in tabs.items() if t and max(x.bit_length() for x in t) != s]
+  ctx.record(R, m.short + ":size_unseeded_map", "list for size s holds s-bit outputs", not bad, "widest entry of every list has exactly its key's bit length" if not bad else
+             "key -> widest entry: %r" % bad)
+  # storage side: GetUnseededRands(size) is the map lookup
+  ds = repo.cls("data.default_storage", "DefaultStorage") if "DefaultStorage" in repo.mod("data.default_storage").classes else None
+  g = repo.find_method(ds, "GetUnseededRands") if ds is not None else None
+  ok = False
+  if g is not None:
+    w = sym.Walker(repo, g)
+    w.run()
+    rets = [e for e in w.events if e.kind == "return" and e.node is not None]
+    size = P("param", [q for q in g.params() if q != "self"][0])
+    ok = bool(rets) and all("size_unseeded_map" in repr(e.data["value"]) and size.as_atom() in as_poly(e.data["value"]).all_atoms() for e in rets if isinstance(e.data["value"], Poly))
+  ctx.record(R, "data.default_storage:GetUnseededRands", "lookup by the requested size", ok, "size_unseeded_map.get(size, empty)" if ok else "GetUnseededRands does not look the requested size up in size_unseeded_map")
